@@ -307,6 +307,10 @@ class World:
 
     def sync_op(self):
         i, att, kind, klass, ra = self.op_common()
+        if (self.cfg.get("att_timeout") or 0) > 10**6 and not self.no_retry:
+            # under a practically unlimited attempt timeout the operation is still running when the runner starts to wait for it
+            # (a few real milliseconds; the virtual clock does not move)
+            threading.Event().wait(0.01)
         if self.cur_op_flag == "hang":
             # hangs past the attempt timeout: the worker thread is abandoned by the runner.  The virtual clock is moved to
             # the instant of the timeout; the thread then outlives the real timeout without touching anything.
@@ -602,6 +606,8 @@ class Shared:
             kw["before_sleep"] = self.mk_bs("policy", is_async)
         if pcfg["sleeper_p"]:
             kw["sleeper"] = self.mk_sleeper("policy", is_async)
+            if self.seq.get("falsy_shared", True):
+                kw["sleeper"] = FalsyCallable(kw["sleeper"])
         if self.budget is not None and pcfg.get("use_budget", True):
             kw["budget"] = self.budget
         return kw
@@ -804,6 +810,9 @@ def call_kwargs(w, shared, mode, entry):
                 kw[k] = FalsyCallable(kw[k])
     if cfg["sleeper_c"]:
         kw["sleeper"] = shared.mk_sleeper("call", w.is_async)
+        if w.variant.get("falsy_hooks"):
+            # a recording sleeper that is a list subclass is falsy until it has recorded something
+            kw["sleeper"] = FalsyCallable(kw["sleeper"])
     if mode == "execute" and cfg["capture_tl"]:
         kw["capture_timeline"] = RetryTimeline() if w.variant.get("tl_object") else True
     return kw
